@@ -463,6 +463,16 @@ def run_S3(c, p):
                 with wr.PageCfg(ver, None):
                     roundtrip(c, df, {"a": "int64", "b": "str_obj", "c": "float64"}, "S3 compression dict %r v%d" % (comp, ver),
                               compression=comp)
+        # with a categorical: its dictionary page is compressed by a branch of its own (the form with arguments is
+        # refused there on the current tree: AttributeError, a refusal and so not a violation of this property)
+        df["d"] = A.series("cat_str", 9, "alt", 0, "d")
+        for comp in ({"d": "GZIP", "_default": "SNAPPY"}, {"d": "UNCOMPRESSED", "a": "ZSTD"},
+                     {"d": {"type": "GZIP", "args": {"compresslevel": 5}}}):
+            for ver in (1, 2):
+                c.ctx = {"comp": str(sorted(comp)) + "+cat", "v": ver}
+                with wr.PageCfg(ver, None):
+                    roundtrip(c, df, {"a": "int64", "b": "str_obj", "c": "float64", "d": "cat_str"},
+                              "S3 compression dict %r v%d" % (comp, ver), compression=comp)
     elif opt == "big":
         kind, n = p["kind"], p["n"]
         for pat in (["none", "alt", "last"] if is_nullable(kind) else ["none"]):
